@@ -172,7 +172,7 @@ func (s *Sorts) structSort(name string, st *types.Struct) string {
 	var fs []string
 	for i := 0; i < st.NumFields(); i++ {
 		f := st.Field(i)
-		fs = append(fs, fmt.Sprintf("(%s__%s %s)", name, sanitize(f.Name()), s.SortOf(f.Type())))
+		fs = append(fs, fmt.Sprintf("(%s__%s %s)", name, fieldAcc(st, i), s.SortOf(f.Type())))
 	}
 	if len(fs) == 0 {
 		s.decls = append(s.decls, fmt.Sprintf("(declare-datatypes ((%s 0)) (((mk_%s))))", name, name))
@@ -180,6 +180,15 @@ func (s *Sorts) structSort(name string, st *types.Struct) string {
 		s.decls = append(s.decls, fmt.Sprintf("(declare-datatypes ((%s 0)) (((mk_%s %s))))", name, name, strings.Join(fs, " ")))
 	}
 	return name
+}
+
+// fieldAcc is the accessor suffix for field i (blank fields get their index).
+func fieldAcc(st *types.Struct, i int) string {
+	n := st.Field(i).Name()
+	if n == "_" {
+		return fmt.Sprintf("blank%d", i)
+	}
+	return sanitize(n)
 }
 
 // Zero returns the zero value term for a Go type.
@@ -306,12 +315,18 @@ func (s *Sorts) Prelude() []string {
 	if len(lits) > 1 {
 		out = append(out, fmt.Sprintf("(assert (distinct %s))", strings.Join(lits, " ")))
 	}
+	return out
+}
+
+// Axioms returns the instance axioms (box/unbox) to be asserted after all constants are declared.
+func (s *Sorts) Axioms() []string {
 	ax := append([]string{}, s.axioms...)
 	sort.Strings(ax)
+	var out []string
 	prev := ""
 	for _, a := range ax {
 		if a != prev {
-			out = append(out, "(assert "+a+")")
+			out = append(out, a)
 		}
 		prev = a
 	}
